@@ -139,6 +139,12 @@ func fileFamily() firstUse {
 				e := file(st).Enums().ByName("E")
 				return fmt.Sprint(e.Values().ByNumber(-1).Name(), e.Values().ByName("E_ONE").Number(), e.Values().Len())
 			}},
+			{"Enum.Values.identity", func(st any) string {
+				// a descriptor object handed out once stays the descriptor: index, name and number lookups agree
+				e := file(st).Enums().ByName("E")
+				a := e.Values().Get(1)
+				return fmt.Sprint(a == e.Values().ByName(a.Name()), a == e.Values().ByNumber(a.Number()), a.Parent() == protoreflect.Descriptor(e), a == e.Values().Get(1))
+			}},
 			{"Extensions+Services", func(st any) string {
 				f := file(st)
 				x := f.Extensions().Get(0)
